@@ -84,15 +84,33 @@ def guarded(f):
         return {'raises': type(e).__name__, 'msg': str(e)[:100]}
 
 
+MATCHING = []
+
+
 def failing_rules(engine, case, txn, ds):
-    """Indices of rules whose let+match evaluation raises ExpressionError for this transaction (implementation's
-    own evaluator), plus failing tag / field expressions of the other rules."""
-    fails = []
-    gv = engine._evaluate_variables(txn, ds)
-    for i, rule in enumerate(engine.rules):
+    """Indices of rules whose MATCH condition cannot be evaluated for this transaction. Decided with the public
+    evaluator entry point only (not with the engine's own helper methods, which are part of what is under test):
+    a top-level variable that fails is absent, a let binding that fails is bound to None — failing bindings make
+    just that binding inapplicable — and the rule fails iff evaluating its match expression then raises."""
+    gv = {}
+    for name, expr in case.get('variables', []):
         try:
-            variables = engine._evaluate_let_bindings(rule, txn, gv, ds) if rule.let_bindings else gv
-            EP.matches_transaction(rule.match_expr, txn, variables, ds)
+            gv[name.lower()] = EP.evaluate_transaction(expr, txn, data_sources=ds)
+        except EP.ExpressionError:
+            pass
+    fails = []
+    del MATCHING[:]
+    kept = [r for r in case['rules']]
+    for i, r in enumerate(kept):
+        variables = dict(gv)
+        for n, e in r.get('lets', []):
+            try:
+                variables[n.lower()] = EP.evaluate_transaction(e, txn, variables=variables, data_sources=ds)
+            except EP.ExpressionError:
+                variables[n.lower()] = None
+        try:
+            if EP.matches_transaction(r['match'], txn, variables, ds):
+                MATCHING.append(i)
         except EP.ExpressionError:
             fails.append(i)
     return fails
@@ -117,6 +135,7 @@ def run_engine_case(case):
             item['full'] = full
             fr = guarded(lambda: failing_rules(engine, case, dict(txn), ds))
             item['failing'] = fr
+            item['indep_matching'] = list(MATCHING)
             if 'ok' in fr:
                 red_text = render_rules(case, skip_rules=set(fr['ok']))
                 red = guarded(lambda: ME.parse_merchants(red_text))
